@@ -4,8 +4,10 @@ from contracts import conn
 
 PROPERTY = "C08"
 LEVEL = "proof"
-ASSUMPTIONS = []
+ASSUMPTIONS = conn.COMMON_ASSUMPTIONS
 
 
 def targets(eng):
-    return conn.targets_for(eng, ["_cleanup", "report_fatal_error", "send_messages", "process_packet", "_handle_ping_request_internal", "_handle_get_time_request_internal", "_handle_disconnect_request_internal", "force_disconnect", "_async_send_keep_alive", "_async_pong_not_received", "_process_hello_resp", "_process_login_response", "_make_connect_request", "_wrap_fatal_connection_exception", "handle_timeout", "handle_complex_message", "_add_message_callback_without_remove", "add_message_callback", "_remove_message_callback"], ["C08"])
+    return conn.targets_for(eng, ["_cleanup", "report_fatal_error", "send_messages", "process_packet", "force_disconnect", "_async_send_keep_alive",
+                                  "_async_pong_not_received", "_handle_disconnect_request_internal", "_connect_init_frame_helper",
+                                  "start_connection", "finish_connection", "disconnect", "send_messages_await_response_complex"], ["C08"])
